@@ -19,6 +19,12 @@ invalid cases    : bad name / bad module / different object under an existing fu
                    probe of the registry (old names, new names, the objects) is unchanged.
                    (the list faults are also tried as a second registration of the same object
                    under the full name it already has: rejected, first registration intact)
+dynreg cases     : the config-file registration API ('from __gin__ import dynamic_registration'):
+                   a module's own K would be registered under a full name held by a different
+                   object registered from Python -> ValueError, registry probe unchanged.
+bulk cases       : hundreds of rejected registrations of short-lived functions followed by
+                   brand-new functions; every allow/deny list is judged by the function's own
+                   parameters (no stale per-object state may survive a dead function).
 interactive cases: re-registration is rejected outside, accepted inside an interactive block
                    (context manager left normally or by exception, or enter/exit calls) and
                    rejected again after it; the name is used through scoped access paths before
@@ -27,6 +33,7 @@ interactive cases: re-registration is rejected outside, accepted inside an inter
                    reference, scoped reference) after it.
 """
 import contextlib
+import gc
 import inspect
 import itertools
 import pickle
@@ -44,7 +51,7 @@ gin = ginenv.import_gin()
 ID = 'C13'
 LEVEL = 'exploration'
 ISOLATE = True
-BUDGET = {'quick': (4, 500), 'thorough': (16, 1500)}
+BUDGET = {'quick': (4, 400), 'thorough': (16, 1500)}
 RULE = ('target cases: class shape or callable kind (40 kinds, generated as source text and '
         'exec\'ed in real modules) x API (configurable/register/external_configurable) x '
         'decorator form (bare, call, name, name+module, module, dotted name, dotted name+module) '
@@ -63,7 +70,10 @@ RULE = ('target cases: class shape or callable kind (40 kinds, generated as sour
         'is off (before everything / after the block) x scope x which scoped access paths touch the name '
         'before the re-registration (all five access paths are checked after it); rejected '
         'registrations of classes with Gin-registered methods also probe the method\'s selectors '
-        'and function. Non-trivial (target) = (class shape other than '
+        'and function. dynreg cases: 7 kinds x first API x 3 spellings x 4 '
+        'statement forms (import / from-import, binding / reference); bulk cases: 50-400 rejected '
+        'registrations of short-lived functions then 20-120 new functions, APIs rotated, '
+        'allowlist / denylist / mixed (non-trivial if >=100 and >=40). Non-trivial (target) = (class shape other than '
         'plain __init__ or API other than configurable) with a binding present and a scope '
         'applied; (invalid/interactive) = same shape/API condition and at least one other '
         'registration present. Distinct = distinct case JSON.')
@@ -85,6 +95,9 @@ ASSUMPTIONS = [
     'nesting)',
     'for callables that Python re-creates on every attribute access (bound methods, bound '
     'builtins, method wrappers) "the original object" includes a re-created equal object',
+    'dynamic registration is a registration API: it names a module attribute <module path>.<attr>; '
+    'import aliases are not generated (the alias becomes part of the registered name, nothing '
+    'clashes) and acceptance inside interactive mode is not asserted for it',
     'nested interactive blocks are not generated (whether the outer block is still interactive '
     'after an inner one exits is not stated); injection into registered *methods* through a '
     'class version is not asserted (the statement only says such instances need not be of the '
@@ -884,7 +897,7 @@ def made_by(version):
   res = out[1]
   if isinstance(res, dict) and '@' in res:
     return res['@']
-  for name in (MOD_A, MOD_T, 'c13mod_c'):
+  for name in (MOD_A, MOD_T, 'c13mod_c', DYN_MOD):
     m = sys.modules.get(name)
     if m is not None and inspect.isclass(m.K) and isinstance(res, m.K):
       return name
@@ -1242,8 +1255,157 @@ def check_interactive(case):
   return ok(labels, nt)
 
 
+# ----------------------------------------------------------------------------- dynamic registration
+DYN_PKG, DYN_MOD = 'c13pkg', 'c13pkg.layers'
+DYN_TARGETS = ['fn', 'init', 'meta', 'namedtuple', 'dataclass', 'wrapped_fn', 'slots']
+DYN_STATEMENTS = {   # how the config names the module's own K (no import aliases: an alias
+    #                  becomes part of the registered name, so nothing would clash)
+    'import-binding': 'import c13pkg.layers\nc13pkg.layers.K.d0 = 5\n',
+    'from-binding': 'from c13pkg import layers\nlayers.K.d0 = 5\n',
+    'import-reference': 'import c13pkg.layers\nc13pkg.layers.stack.block = @c13pkg.layers.K\n',
+    'from-reference-evaluated': 'from c13pkg import layers\nlayers.stack.block = @layers.K()\n',
+}
+
+
+def check_dynreg(case):
+  """The registration API of config files ('from __gin__ import dynamic_registration'): the
+  module's own K would be registered as c13pkg.layers.K, a full name already held by a different
+  object that was registered from Python -> rejected, nothing registered."""
+  kind, api, stmt = case['target'], case['api'], case['statement']
+  if kind not in DYN_TARGETS or api not in APIS or stmt not in DYN_STATEMENTS:
+    raise OutOfDomain('cell not in domain')
+  labels = {'kind:dynreg', 'api:' + api, 'shape:' + kind, 'statement:' + stmt,
+            'target:class' if KINDS[kind][0] else 'target:callable'}
+  priors = make_prior(int(case.get('prior', 0)) % 4)
+  pkg = types.ModuleType(DYN_PKG)
+  pkg.__path__ = []
+  sys.modules[DYN_PKG] = pkg
+  src = (build_source(kind, norm_sig(kind, TAG_SIG), 1, tag=True) +
+         '\ndef stack(block=None):\n  return block\n')
+  layers = load_module(DYN_MOD, src)
+  pkg.layers = layers
+  legacy = build_tagged(kind, MOD_T)
+  full = DYN_MOD + '.K'
+  spell = [('K', DYN_MOD), ('layers.K', DYN_PKG), (full, None)][int(case.get('variant', 0)) % 3]
+  do_register(api, 'name_module', legacy.K, name=spell[0], module=spell[1])
+  names = sorted({s for f, _, _ in priors for s in suffixes(f)} | set(suffixes(full)))
+  objects = [(tag, f) for _, f, tag in priors] + [('legacy', legacy.K), ('module-K', layers.K)]
+  before_vars = snap(layers.K)
+  before = probe(names, objects)
+  require(made_by(gin.get_configurable(full)) == MOD_T, 'harness', 'legacy object not reachable')
+  text = 'from __gin__ import dynamic_registration\n' + DYN_STATEMENTS[stmt]
+  try:
+    gin.parse_config(text)
+    raised = None
+  except Exception as e:  # pylint: disable=broad-except
+    raised = e
+  require(raised is not None, 'invalid-registration-accepted',
+          lambda: f'dynamic registration of {DYN_MOD}.K ({kind}) accepted although {full!r} is '
+                  f'held by a different object registered through {api}')
+  require(isinstance(raised, ValueError), 'invalid-registration-wrong-exception',
+          lambda: f'{type(raised).__name__}: {raised}')
+  diff = probe_diff(before, probe(names, objects))
+  require(not diff, 'rejected-registration-changed-registry', lambda: f'{stmt}: probes {diff}')
+  vdiff = snap_diff(before_vars, layers.K)
+  require(not vdiff, 'rejected-registration-altered-object', lambda: f'vars changed at {vdiff}')
+  who = made_by(gin.get_configurable(full))
+  require(who == MOD_T, 'rejected-registration-changed-registry',
+          f'{full} now reaches the object of {who}, expected {MOD_T}')
+  nt = bool(priors) or kind != 'fn'
+  if nt:
+    labels.add('nontrivial')
+  return ok(labels, nt)
+
+
+# ----------------------------------------------------------------------------- bulk histories
+def _mk_dead():
+  def dead(old_only=0):
+    return ('dead', old_only)
+  return dead
+
+
+def _mk_new(has_old):
+  if has_old:
+    def fresh(old_only=0, a=1):
+      return ('fresh-with-old', old_only, a)
+  else:
+    def fresh(a=0, b=1):
+      return ('fresh', a, b)
+  return fresh
+
+
+def _bulk_register(api, fn, name, **lists):
+  if api == 'external':
+    return gin.external_configurable(fn, name, module='c13bulk', **lists)
+  deco = gin.configurable if api == 'configurable' else gin.register
+  return deco(name, module='c13bulk', **lists)(fn)
+
+
+def check_bulk(case):
+  """Many registrations in one process: short-lived functions with a parameter `old_only` whose
+  registrations are rejected (so nothing keeps them alive), then brand-new functions; every
+  allow/deny list is judged by the function's own signature."""
+  n_dead = 50 + int(case.get('n_dead', 0)) % 351
+  n_new = 20 + int(case.get('n_new', 0)) % 101
+  rot = int(case.get('rot', 0))
+  which = case.get('list', 'mixed')
+  if which not in ('allowlist', 'denylist', 'mixed'):
+    raise OutOfDomain('list kind')
+  labels = {'kind:bulk', 'bulk:' + which}
+  dead = [_mk_dead() for _ in range(n_dead)]
+  dead_ids = {id(f) for f in dead}
+  for i, f in enumerate(dead):
+    try:
+      _bulk_register(APIS[(i + rot) % 3], f, f'dead{i}', allowlist=['nonexistent'])
+    except Exception:  # pylint: disable=broad-except
+      continue
+    raise Violation('invalid-registration-accepted', f'dead{i}: allowlist [nonexistent]')
+  del dead, f
+  gc.collect()
+  reused = 0
+  for i in range(n_new):
+    api = APIS[(i + rot) % 3]
+    has_old = i % 3 == 2
+    lk = which if which != 'mixed' else ('allowlist', 'denylist')[i % 2]
+    fn = _mk_new(has_old)
+    reused += id(fn) in dead_ids
+    name = f'new{i}'
+    try:
+      _bulk_register(api, fn, name, **{lk: ['old_only']})
+      accepted = True
+    except Exception:  # pylint: disable=broad-except
+      accepted = False
+    sig_txt = '(old_only, a)' if has_old else '(a, b)'
+    require(accepted == has_old, 'invalid-registration-accepted' if accepted else
+            'valid-registration-rejected',
+            lambda: f'round {i}: {api} {lk}=[old_only] for a function with parameters {sig_txt} '
+                    f'was {"accepted" if accepted else "rejected"} (after {n_dead} rejected '
+                    f'registrations of short-lived functions that had old_only)')
+    if not accepted:
+      pr = probe([f'c13bulk.{name}'], [('fn', fn)])
+      require(all(v == 'unresolved' for v in pr.values()), 'rejected-registration-changed-registry',
+              lambda: f'round {i}: {pr}')
+      try:
+        _bulk_register(api, fn, name, **{lk: ['a']})
+      except Exception as e:  # pylint: disable=broad-except
+        raise Violation('valid-registration-rejected', f'round {i}: {lk}=[a]: {e}')
+    out = call(gin.get_configurable(f'c13bulk.{name}'), [], {})
+    require(out[0] == 'ok' and out[1][0] == ('fresh-with-old' if has_old else 'fresh'),
+            'name-reaches-wrong-object', lambda: f'round {i}: {out!r}')
+  if reused:
+    labels.add('bulk:address-of-dead-function-reused')
+  nt = n_dead >= 100 and n_new >= 40
+  if nt:
+    labels.add('nontrivial')
+  return ok(labels, nt)
+
+
 def check_case(case):
   k = case.get('kind')
+  if k == 'dynreg':
+    return check_dynreg(case)
+  if k == 'bulk':
+    return check_bulk(case)
   if k == 'target':
     return check_target(case)
   if k == 'invalid':
@@ -1307,9 +1469,25 @@ def _interactive_case(draw):
           'stray': draw(st.integers(0, 3))}
 
 
+@st.composite
+def _dynreg_case(draw):
+  return {'kind': 'dynreg', 'target': draw(st.sampled_from(DYN_TARGETS)),
+          'api': draw(st.sampled_from(APIS)),
+          'statement': draw(st.sampled_from(sorted(DYN_STATEMENTS))),
+          'variant': draw(st.integers(0, 2)), 'prior': draw(st.integers(0, 3))}
+
+
+@st.composite
+def _bulk_case(draw):
+  return {'kind': 'bulk', 'n_dead': draw(st.integers(0, 350)), 'n_new': draw(st.integers(0, 100)),
+          'rot': draw(st.integers(0, 2)),
+          'list': draw(st.sampled_from(['allowlist', 'denylist', 'mixed']))}
+
+
 def strategy():
-  return st.one_of(_target_case(), _target_case(), _target_case(), _invalid_case(),
-                   _interactive_case())
+  other = st.one_of(_dynreg_case(), _dynreg_case(), _dynreg_case(), _bulk_case())
+  return st.one_of(_target_case(), _target_case(), _target_case(), _target_case(),
+                   _invalid_case(), _invalid_case(), _interactive_case(), other)
 
 
 # ----------------------------------------------------------------------------- sweeps
@@ -1362,7 +1540,7 @@ def sweep_invalid(tier):
     if fault in LIST_FAULTS:
       # the same faults as a second registration of an already registered object: every first
       # API (variant // 6) x list form, inside and outside interactive mode
-      for variant, interactive in itertools.product(range(18) if full else (0, 7, 14),
+      for variant, interactive in itertools.product((0, 1, 6, 7, 12, 13) if full else (0, 7, 14),
                                                     (False, True)):
         cases.append({'kind': 'invalid', 'target': target, 'api': api, 'fault': fault,
                       'variant': variant, 'prior': 1, 'interactive': interactive, 'second': True})
@@ -1402,5 +1580,23 @@ def _known_newline_name_after_decoration(case, verdict):
 KNOWN = {'configurable_signature_no_ctor': _known_signature_no_ctor,
          'newline_name_after_decoration': _known_newline_name_after_decoration}
 
+def sweep_dynreg(tier):
+  del tier
+  cases = [{'kind': 'dynreg', 'target': t, 'api': a, 'statement': st_, 'variant': v, 'prior': 1}
+           for t, a, st_, v in itertools.product(DYN_TARGETS, APIS, sorted(DYN_STATEMENTS),
+                                                 range(3))
+           if t in ('fn', 'meta') or v == DYN_TARGETS.index(t) % 3]
+  return cases, True
+
+
+def sweep_bulk(tier):
+  sizes = [(350, 100), (250, 60)] if tier == 'quick' else [(350, 100), (250, 60), (120, 100),
+                                                           (60, 30)]
+  cases = [{'kind': 'bulk', 'n_dead': d, 'n_new': n, 'rot': r, 'list': l}
+           for (d, n), r, l in itertools.product(sizes, range(3),
+                                                 ['allowlist', 'denylist', 'mixed'])]
+  return cases, False
+
+
 SWEEPS = {'kind-api-scope': sweep_cells, 'forms': sweep_forms, 'invalid': sweep_invalid,
-          'interactive': sweep_interactive}
+          'interactive': sweep_interactive, 'dynreg': sweep_dynreg, 'bulk': sweep_bulk}
